@@ -18,6 +18,7 @@ def run(ctx, rep):
     e7b_khi.check_doubling(facts, rep)
     e7b_khi.check_half_grouping(facts, rep)
     e7b_khi.check_half_selection(facts, rep)
+    e7b_khi.check_ssi_selection(facts, rep)
     e7b_khi.check_cone(facts, rep)
     e7b_khi.check_inv_link(facts, rep)
     e7b_khi.check_sym_base_point(facts, rep)
